@@ -961,4 +961,172 @@ theorem affineIndep_3d (x : Fin 4 → Vec 3) (h : signedVol3 x ≠ 0) : AffineIn
   · exact ht2
   · exact ht3
 
+/-! ### assembly, uniqueness of the saddle-point solve, global exactness -/
+
+theorem delta_sum {n : Nat} (a : Fin n) (g : Fin n → ℚ) : ∑ F, delta a F * g F = g a := by
+  simp only [delta, ite_mul, one_mul, zero_mul, Finset.sum_ite_eq, Finset.mem_univ, if_true]
+
+theorem assemble_quad (nf nc m : Nat) (f : Fin nc → Fin m → Fin nf) (L : Fin nc → Mat m m) (y : Vec nf) :
+    quadForm (assemble nf nc m f L) y = ∑ c, quadForm (L c) (restrict y (f c)) := by
+  have inner : ∀ c j k, ∑ F, ∑ G, y F * (delta (f c j) F * L c j k * delta (f c k) G) * y G
+      = y (f c j) * (L c j k * y (f c k)) := by
+    intro c j k
+    have h : ∀ F, ∑ G, y F * (delta (f c j) F * L c j k * delta (f c k) G) * y G
+        = (delta (f c j) F * y F) * (L c j k * ∑ G, delta (f c k) G * y G) := by
+      intro F; rw [Finset.mul_sum, Finset.mul_sum]
+      exact Finset.sum_congr rfl fun G _ => by ring
+    simp only [h, ← Finset.sum_mul, delta_sum]
+  have e : ∀ F, y F * ∑ G, (∑ c, ∑ j, ∑ k, delta (f c j) F * L c j k * delta (f c k) G) * y G
+      = ∑ G, ∑ c, ∑ j, ∑ k, y F * (delta (f c j) F * L c j k * delta (f c k) G) * y G := by
+    intro F; simp only [Finset.mul_sum, Finset.sum_mul]
+    exact Finset.sum_congr rfl fun G _ => Finset.sum_congr rfl fun c _ => Finset.sum_congr rfl fun j _ =>
+      Finset.sum_congr rfl fun k _ => by ring
+  rw [quadForm_eq]
+  simp only [assemble, sumFin_eq, quadForm_eq, restrict, e]
+  calc ∑ F, ∑ G, ∑ c, ∑ j, ∑ k, y F * (delta (f c j) F * L c j k * delta (f c k) G) * y G
+      = ∑ F, ∑ c, ∑ G, ∑ j, ∑ k, y F * (delta (f c j) F * L c j k * delta (f c k) G) * y G :=
+        Finset.sum_congr rfl fun F _ => Finset.sum_comm
+    _ = ∑ c, ∑ F, ∑ G, ∑ j, ∑ k, y F * (delta (f c j) F * L c j k * delta (f c k) G) * y G := Finset.sum_comm
+    _ = ∑ c, ∑ j, ∑ k, ∑ F, ∑ G, y F * (delta (f c j) F * L c j k * delta (f c k) G) * y G :=
+        Finset.sum_congr rfl fun c _ =>
+          sum_comm4 (fun F G j k => y F * (delta (f c j) F * L c j k * delta (f c k) G) * y G)
+    _ = ∑ c, ∑ j, ∑ k, y (f c j) * (L c j k * y (f c k)) := by simp only [inner]
+    _ = ∑ c, ∑ j, y (f c j) * ∑ k, L c j k * y (f c k) := by simp only [Finset.mul_sum]
+
+theorem assemble_symm (nf nc m : Nat) (f : Fin nc → Fin m → Fin nf) (L : Fin nc → Mat m m)
+    (hL : ∀ c, IsSymm (L c)) : IsSymm (assemble nf nc m f L) := by
+  intro F G
+  simp only [assemble, sumFin_eq]
+  refine Finset.sum_congr rfl fun c _ => ?_
+  rw [Finset.sum_comm]
+  refine Finset.sum_congr rfl fun j _ => Finset.sum_congr rfl fun k _ => ?_
+  rw [hL c j k]; ring
+
+theorem assemble_spd (nf nc m : Nat) (f : Fin nc → Fin m → Fin nf) (L : Fin nc → Mat m m)
+    (hpsd : ∀ c, PosSemidef (L c)) (hcov : ∀ F, ∃ c j, f c j = F ∧ PosDef (L c)) :
+    PosDef (assemble nf nc m f L) := by
+  intro y hy
+  obtain ⟨F, hF⟩ := hy
+  rw [assemble_quad]
+  obtain ⟨c, j, hj, hpd⟩ := hcov F
+  refine Finset.sum_pos' (fun c _ => hpsd c _) ⟨c, Finset.mem_univ _, hpd _ ⟨j, ?_⟩⟩
+  simp only [restrict, hj]; exact hF
+
+theorem mulVec_sub' {m n : Nat} (A : Mat m n) (v w : Vec n) (i : Fin m) :
+    mulVec A (v - w) i = mulVec A v i - mulVec A w i := by
+  simp only [mulVec_apply, Pi.sub_apply, mul_sub, Finset.sum_sub_distrib]
+
+theorem saddle_unique' {nf nc : Nat} (M : Mat nf nf) (B : Mat nc nf) (hM : PosDef M)
+    (hB : ∀ p : Vec nc, (∀ F, mulVec (transpose B) p F = 0) → ∀ c, p c = 0)
+    (r1 : Vec nf) (r2 : Vec nc) (u u' : Vec nf) (p p' : Vec nc)
+    (h1 : ∀ F, mulVec M u F + mulVec (transpose B) p F = r1 F) (h2 : ∀ c, mulVec B u c = r2 c)
+    (h1' : ∀ F, mulVec M u' F + mulVec (transpose B) p' F = r1 F) (h2' : ∀ c, mulVec B u' c = r2 c) :
+    (∀ F, u F = u' F) ∧ ∀ c, p c = p' c := by
+  have e1 : ∀ F, mulVec M (u - u') F + mulVec (transpose B) (p - p') F = 0 := by
+    intro F; rw [mulVec_sub', mulVec_sub']; linarith [h1 F, h1' F]
+  have e2 : ∀ c, mulVec B (u - u') c = 0 := by
+    intro c; rw [mulVec_sub']; linarith [h2 c, h2' c]
+  have t : ∑ F, (u - u') F * mulVec (transpose B) (p - p') F = ∑ c, mulVec B (u - u') c * (p - p') c := by
+    simp only [mulVec_apply, transpose, Finset.mul_sum, Finset.sum_mul]
+    rw [Finset.sum_comm]
+    exact Finset.sum_congr rfl fun c _ => Finset.sum_congr rfl fun F _ => by ring
+  have q : quadForm M (u - u') = 0 := by
+    unfold quadForm; rw [dot_eq]
+    have h : ∀ F, (u - u') F * mulVec M (u - u') F = -((u - u') F * mulVec (transpose B) (p - p') F) := by
+      intro F; linear_combination (u - u') F * e1 F
+    simp only [h, Finset.sum_neg_distrib, t, e2, zero_mul, Finset.sum_const_zero, neg_zero]
+  have hdu : ∀ F, (u - u') F = 0 := by
+    intro F; by_contra hF
+    have := hM (u - u') ⟨F, hF⟩
+    rw [q] at this; exact lt_irrefl 0 this
+  have hMdu : ∀ F, mulVec M (u - u') F = 0 := by
+    intro F; simp only [mulVec_apply, hdu, mul_zero, Finset.sum_const_zero]
+  have hdp := hB (p - p') (fun F => by have := e1 F; rw [hMdu F, zero_add] at this; exact this)
+  exact ⟨fun F => sub_eq_zero.mp (hdu F), fun c => sub_eq_zero.mp (hdp c)⟩
+
+theorem full_rank_of_tree' {nf nc : Nat} (B : Mat nc nf) (root : Fin nc) (rootFace : Fin nf)
+    (parent : Fin nc → Fin nc) (link : Fin nc → Fin nf) (rank : Fin nc → Nat)
+    (hroot : B root rootFace ≠ 0) (hroot' : ∀ c, c ≠ root → B c rootFace = 0)
+    (hlink : ∀ c, c ≠ root → B c (link c) ≠ 0 ∧ rank (parent c) < rank c ∧
+      ∀ c', c' ≠ c → c' ≠ parent c → B c' (link c) = 0)
+    (p : Vec nc) (hp : ∀ F, mulVec (transpose B) p F = 0) : ∀ c, p c = 0 := by
+  simp only [mulVec_apply, transpose] at hp
+  have hr : p root = 0 := by
+    have := hp rootFace
+    rw [Finset.sum_eq_single root (fun c _ hc => by rw [hroot' c hc, zero_mul])
+      (fun h => absurd (Finset.mem_univ _) h)] at this
+    exact (mul_eq_zero.mp this).resolve_left hroot
+  have key : ∀ n c, rank c < n → p c = 0 := by
+    intro n
+    induction n with
+    | zero => intro c h; exact absurd h (Nat.not_lt_zero _)
+    | succ n ih =>
+      intro c hc
+      by_cases hcr : c = root
+      · rw [hcr]; exact hr
+      · obtain ⟨hne, hrank, hoth⟩ := hlink c hcr
+        have hpar : p (parent c) = 0 := ih (parent c) (by omega)
+        have := hp (link c)
+        rw [Finset.sum_eq_single c (fun c' _ hc' => by
+            by_cases hpc : c' = parent c
+            · rw [hpc, hpar, mul_zero]
+            · rw [hoth c' hc' hpc, zero_mul])
+          (fun h => absurd (Finset.mem_univ _) h)] at this
+        exact (mul_eq_zero.mp this).resolve_left hne
+  exact fun c => key (rank c + 1) c (Nat.lt_succ_self _)
+
+theorem global_rows_exact' (nf nc m : Nat) (f : Fin nc → Fin m → Fin nf) (L : Fin nc → Mat m m)
+    (s : Fin nc → Vec m) (u : Vec nf) (pc : Vec nc) (P : Vec nf)
+    (hloc : ∀ c j, localResidual (L c) (s c) (restrict u (f c)) (pc c) (restrict P (f c)) j = 0)
+    (hdiv : ∀ c, localDivergence (s c) (restrict u (f c)) = 0) :
+    (∀ F, mulVec (assemble nf nc m f L) u F + mulVec (transpose (divMat nf nc m f s)) pc F
+        = - faceSign nf nc m f s F * P F)
+    ∧ (∀ c, mulVec (divMat nf nc m f s) u c = 0) := by
+  constructor
+  · intro F
+    have g : ∀ c j k, ∑ G, delta (f c j) F * L c j k * delta (f c k) G * u G
+        = delta (f c j) F * (L c j k * u (f c k)) := by
+      intro c j k
+      have h : ∀ G, delta (f c j) F * L c j k * delta (f c k) G * u G
+          = (delta (f c j) F * L c j k) * (delta (f c k) G * u G) := by intro G; ring
+      simp only [h, ← Finset.mul_sum, delta_sum]; ring
+    have hA : mulVec (assemble nf nc m f L) u F = ∑ c, ∑ j, delta (f c j) F * ∑ k, L c j k * u (f c k) := by
+      simp only [mulVec_apply, assemble, sumFin_eq, Finset.sum_mul]
+      rw [Finset.sum_comm]
+      refine Finset.sum_congr rfl fun c _ => ?_
+      rw [Finset.sum_comm]
+      refine Finset.sum_congr rfl fun j _ => ?_
+      rw [Finset.sum_comm]
+      simp only [g, Finset.mul_sum]
+    have hB : mulVec (transpose (divMat nf nc m f s)) pc F
+        = ∑ c, ∑ j, delta (f c j) F * (-(s c j * pc c)) := by
+      simp only [mulVec_apply, transpose, divMat, sumFin_eq]
+      refine Finset.sum_congr rfl fun c _ => ?_
+      rw [neg_mul, Finset.sum_mul, ← Finset.sum_neg_distrib]
+      exact Finset.sum_congr rfl fun j _ => by ring
+    have hR : - faceSign nf nc m f s F * P F = ∑ c, ∑ j, -(delta (f c j) F * s c j * P F) := by
+      simp only [faceSign, sumFin_eq, neg_mul, Finset.sum_mul, Finset.sum_neg_distrib]
+    rw [hA, hB, hR, ← Finset.sum_add_distrib]
+    refine Finset.sum_congr rfl fun c _ => ?_
+    rw [← Finset.sum_add_distrib]
+    refine Finset.sum_congr rfl fun j _ => ?_
+    have hl := hloc c j
+    simp only [localResidual, sumFin_eq, restrict] at hl
+    unfold delta
+    split_ifs with h
+    · rw [← h]; linear_combination hl
+    · ring
+  · intro c
+    have hd := hdiv c
+    simp only [localDivergence, sumFin_eq, restrict] at hd
+    simp only [mulVec_apply, divMat, sumFin_eq]
+    have e : ∀ F, (-∑ j, delta (f c j) F * s c j) * u F = -∑ j, s c j * (delta (f c j) F * u F) := by
+      intro F; rw [neg_mul, Finset.sum_mul]
+      congr 1
+      exact Finset.sum_congr rfl fun j _ => by ring
+    simp only [e, Finset.sum_neg_distrib]
+    rw [Finset.sum_comm]
+    simp only [← Finset.mul_sum, delta_sum]
+    exact hd
+
 end PorepyVerif.C18
